@@ -7,23 +7,23 @@ VERIF = os.path.dirname(os.path.dirname(os.path.abspath(__file__)))
 props = [json.loads(l) for l in open(os.path.join(VERIF, "properties.jsonl"))]
 
 TEXT = {
- "C01": "pack() = declarative wire layout (Spec), computed length fields, padding in every residue class, round trip into an object in any prior state and byte-identical re-encode; decode-only layouts for IENA-D/N and typed NPD segments",
- "C02": "Ethernet/IPv4/UDP/ARP layouts = Spec for every nesting (VLAN, FCS), round trips, re-encode of decoded option-less IPv4 headers incl. flags and fragment offset, payload transparency through the pcap-record/Ethernet/IPv4/UDP stack with trailing pad",
+ "C01": "pack() = declarative wire layout (Spec), computed length fields, padding in every residue class, round trip into an object in any prior state and byte-identical re-encode; decode-only layouts for IENA-D/N and typed NPD segments; len() = length of the packed bytes and getitem = the i-th encoded element for the container classes",
+ "C02": "Ethernet/IPv4/UDP/ARP layouts = Spec for every nesting (VLAN, FCS), round trips, re-encode of decoded option-less IPv4 headers incl. flags and fragment offset, payload transparency through the pcap-record/Ethernet/IPv4/UDP stack with trailing pad; AFDX layout; pack48/unpack48 tied to their current source by theorem (src_*)",
  "C03": "Chapter 10 UDP transfer header formats 1/2/3 and Chapter 11 header: layout = Spec, round trip, packet length = emitted length, multiple of 4, filler rule, secondary header; format-2 round trip is a _partial theorem (known finding K1)",
  "C04": "Chapter 11 data payload codecs (PCM, UART, 1553, ARINC-429, time formats 1/2, analog, computer-generated, video): layout = Spec, round trip of messages in order with time stamps and status bits, append()-built payloads accepted; calendar and NTP-fraction laws",
  "C05": "pcap files as byte strings: standard global header, write sessions irrelevant, read = write by iteration and index, every truncation offset yields the complete records then at most one shortened record",
  "C06": "MPEG-TS packet = 188 bytes with ISO 13818-1 header, adaptation-field length byte = adaptation bytes that follow for every combination of optional parts, extension layout as coded (= ISO with length byte + 1, proved), PMT/PES/STANAG round trips, N packets in → N out, re-encode of any decoded packet never raises struct.error/TypeError; PES optional-header detection is a _partial theorem (known finding K2)",
- "C07": "every integrity field equals the standard algorithm (RFC 1071 with the byte-order theorem, IEEE 802.3 CRC-32, CRC-32/MPEG-2, IRIG 106 sums, MISB sum) of the protected bytes; every single-bit flip of an Ethernet frame with FCS, of the STANAG 4609 protected bytes in the raw TS packet and of a PMT section outside its three structural fields (_partial) is rejected by the decoder",
- "C08": "every decoder loop has enough fuel for every buffer (termination) with a work bound items <= bytes; on the real code every unpack runs under a watchdog and an allocation ceiling, un-modelled decoders included",
- "C09": "each acceptance check as an iff theorem over all buffers; accepted elements have exactly the declared length (never truncated or padded)",
- "C10": "Chapter 7: frames of exactly the configured length (any traffic), emitted frames = Spec.Ch7.frames, payload stream = concatenated Golay-protected PTDPs (prefix law), fragmentation law, offset field law, decapsulate∘encapsulate for normal traffic, and for low-latency traffic under the decidable hypothesis NoLLPOverflow (decap_encap_llp; the overflow case is known finding K3)",
- "C11": "Golay(24,12): systematic, corrects every <=3-bit error and flags every 4-bit error for all 4096 values x all patterns (linearity + kernel-evaluated finite obligations, no native_decide)",
+ "C07": "the checksum / CRC helper functions as regenerated from their current source equal the model for all inputs (src_* tie theorems); every integrity field equals the standard algorithm (RFC 1071 with the byte-order theorem, IEEE 802.3 CRC-32, CRC-32/MPEG-2, IRIG 106 sums, MISB sum) of the protected bytes; every single-bit flip of an Ethernet frame with FCS, of the STANAG 4609 protected bytes in the raw TS packet and of a PMT section outside its section_length bits is rejected by the decoder (program_info_length flips always; section_length flips unless the CRC of the moved range coincides - exact condition proved, forged witness = known finding K8)",
+ "C08": "every decoder loop has enough fuel for every buffer (termination) with a work bound items <= bytes; packet-level outcome lists (which exception, exactly when) for the container decoders; bounded-piece read of Pcap.next (memory clause); on the real code every unpack runs under a watchdog and an allocation ceiling",
+ "C09": "each acceptance check as an iff theorem over all buffers, for the container decoders as a declarative walk over the bytes (FitsSegs / FitsPkgs) with the rejections per exception kind; accepted elements have exactly the declared length (never truncated or padded)",
+ "C10": "Chapter 7: termination and frames of exactly the configured length for ANY traffic and every L >= 1 (unconditional: frames_len_any), byte conservation, emitted frames = Spec.Ch7.frames, payload stream = concatenated Golay-protected PTDPs (prefix law), fragmentation law, offset field law, decapsulate∘encapsulate for normal traffic, and for low-latency traffic under the decidable hypothesis NoLLPOverflow (decap_encap_llp; the overflow case is known finding K3)",
+ "C11": "Golay(24,12): the encode table, syndrome and decode steps as regenerated from the current source equal the model (src_* tie theorems); systematic, corrects every <=3-bit error and flags every 4-bit error for all 4096 values x all patterns (linearity + kernel-evaluated finite obligations, no native_decide)",
  "C12": "Chapter 10 file as a byte string: write then iterate returns the same byte strings, sync-free junk is skipped, every truncation offset yields exactly the complete packets, items <= bytes",
- "C13": "pack idempotent and field-preserving for every state; a successful unpack is independent of any prior state (same codec options); histories and two live objects compared on the real code",
- "C14": "eq a b -> identical encoding; decode(encode a) == a; comparison with a foreign operand is False, never an exception",
- "C15": "PTP/RTC carriage, exact add/sub, ordering = lexicographic, BCD inverse, pinksheet RTC, PTS bit layout and tick round trip, IENA time-of-year inverse; float steps proved for every rounding function with the two binary64 facts and for the executable round-to-nearest-even model (rne_floatSem), which is compared with CPython bit for bit",
+ "C13": "pack idempotent and field-preserving for every state (incl. PMT, STANAG 4609); a successful unpack is independent of any prior state (same codec options); len / getitem after unpack depend on the bytes only; histories, two live objects, forwarded values, internal aliasing and input forms compared on the real code",
+ "C14": "eq a b -> identical encoding; decode(encode a) == a (incl. MPEGTS, PMT, PES, STANAG 4609, time formats under decidable canonical forms); comparison with a foreign operand is False, never an exception: eqOp theorems for every class that defines __eq__, the isinstance guards regenerated from the source",
+ "C15": "PTPTime arithmetic / ordering / pink-sheet RTC and the PTS bit layout as regenerated from the current source equal the model (src_* tie theorems, incl. the float % and // and Decimal steps under the 32-bit ranges); PTP/RTC carriage, exact add/sub, ordering = lexicographic, BCD inverse, pinksheet RTC, PTS bit layout and tick round trip, IENA time-of-year inverse; float steps proved for every rounding function with the two binary64 facts and for the executable round-to-nearest-even model (rne_floatSem), which is compared with CPython bit for bit",
  "C16": "IPv4 reassembly: result invariant under every permutation of fragments with distinct offsets (List.Perm), payload/headers/cleared fragmentation fields, refusals",
- "C17": "KMP.search and Horspool = ascending list of all occurrences (sound and complete, all texts, all non-empty patterns); byte swap layout, involution, refusals; PCM frame size from two sync words",
+ "C17": "endianness_swap as regenerated from its current source equals the model for every buffer and group size (src_*); KMP.search and Horspool = ascending list of all occurrences (sound and complete, all texts, all non-empty patterns); byte swap layout, involution, refusals; PCM frame size from two sync words",
  "C18": "SAM/DEC pcap decommutation returns exactly the frames carried, foreign packets ignored (composition of pcap reading, UDP filter, iNetX acceptance, Horspool, slicing)",
  "C19": "legacy Chapter10 namespace: binding tables regenerated from the source with ast, same objects / only a DeprecationWarning / Chapter10 = Chapter11 constants, decided by `decide` over the finite tables and checked in a fresh interpreter",
  "C20": "PTDP and PTFR header words decode to the same fields under every <=3-bit error pattern per protected word (from C11 + xor on big-endian bytes = xor on the word)",
@@ -48,10 +48,10 @@ def main():
                 "replay_cmd_template": "python3 check.py %s --replay {path}" % pid,
                 "engine": "lean-proof+correspondence",
                 "level_claimed": {"category": "proof",
-                    "text": "Lean 4 theorems — " + TEXT[pid] + " — about an executable model whose constants are regenerated from the source on every run; the model is tied to the code by a differential line-protocol check run on every invocation; Python oracles only search for a concrete failing input. Theorem files: " + ", ".join(files) + " (theorem names, axioms and `_partial` statements are in the evidence file and DESIGN.md §5/§12).",
+                    "text": "Lean 4 theorems — " + TEXT[pid] + " — about an executable model whose constants (and, where listed, helper-function definitions: theorems `src_*`) are regenerated from the source on every run; the model is tied to the code by a differential line-protocol check run on every invocation; Python oracles only search for a concrete failing input. Theorem files: " + ", ".join(files) + " (theorem names, axioms and `_partial` statements are in the evidence file and DESIGN.md §5/§12).",
                     "design_ref": "DESIGN.md §5 " + pid + ", §12"},
-                "level_note": "Trusted: Lean kernel; axioms propext/Classical.choice/Quot.sound only (audited each run); harness/extract.py; driver line protocol and canonicalisation; the hand-written models answer to the code only on the operations generated in each run; platform assumptions of DESIGN §7.",
-                "technique": "Lean 4 machine-checked proof over a model + constants regenerated from the source + differential correspondence"})
+                "level_note": "Trusted: Lean kernel; axioms propext/Classical.choice/Quot.sound only (audited each run); harness/extract.py and harness/translate.py with the prelude Acra/Py/IntOps.lean; driver line protocol and canonicalisation; the hand-written models answer to the code only on the operations generated in each run; platform assumptions of DESIGN §7.",
+                "technique": "Lean 4 machine-checked proof over a model + constants (and, for the pure helper functions, definitions) regenerated from the source by a translator + differential correspondence"})
         else:
             na.append({"property_id": pid, "reason": PENDING.get(pid, "check under construction (Lean model, theorems and correspondence per DESIGN.md §5 %s not merged yet); not claimed until it runs clean on the unchanged tree" % pid)})
     m["checks"] = checks
